@@ -8,7 +8,7 @@ IdxLong == {0, 1, 4, 8, 9, 10, HugeM1, HUGE}
 OpCode(o) == CASE o = "push_back" -> 1 [] o = "push_fore" -> 2 [] o = "insert" -> 3 [] o = "pull_back" -> 4
    [] o = "pull_fore" -> 5 [] o = "remove" -> 6 [] o = "store" -> 7 [] o = "erase" -> 8 [] o = "setn" -> 9
    [] o = "setm" -> 10 [] o = "setz" -> 11 [] o = "sort" -> 12 [] o = "sort_fore" -> 13 [] o = "sort_back" -> 14
-   [] o = "push_sort" -> 15 [] o = "search" -> 16 [] o = "at" -> 17 [] o = "of" -> 18 [] o = "top" -> 19 [] o = "create" -> 20 [] o = "walk" -> 21 [] OTHER -> 0
+   [] o = "push_sort" -> 15 [] o = "search" -> 16 [] o = "at" -> 17 [] o = "of" -> 18 [] o = "top" -> 19 [] o = "create" -> 20 [] o = "walk" -> 21 [] o = "push" -> 22 [] o = "pull" -> 23 [] OTHER -> 0
 Emit == PrintT(ToJson(<<8888888, IF Kind = "vec" THEN 1 ELSE 2, OpCode(last'.op), last'.a1, last'.a2, last'.slot, last'.val,
                         last'.rc, last'.cmp, last'.case, siz, mem, Len(seq), siz', mem', Len(seq'), Len(last'.blk),
                         seq, seq', last'.blk>>))
